@@ -11,6 +11,19 @@ F        {'rot': None | [axis, angle<=8], 'E': [6 floats in [-1,1]] (direction o
           the oracle), 'emag': spectral norm of the symmetric part (<= 0.03)}
 move     {'t': [3] rigid translation of the deformed system, 'boxshift': [3] relative shift of the deformed cell
           against its atoms (atoms are then wrapped back into it: same periodic crystal, other images)}
+hist     {'ops0': [query, ...] earlier queries on the reference System object, 'ops1': [...] on the deformed one
+          (query = {'op': nlist|r0|dvect|scaled|attr|wrap|derived, 'k': int, 'x': float in [0,1]}, resolved against the
+          current state in the oracle), 'build1': None | {'state': ref|other, 'pos': int, 'box': int, 'pbcflip': bool,
+          'form': int}: the deformed System object first exists in another state (queried there) and is then brought to
+          the judged state in place through the public setters selected by pos / box / form,
+          'decoy': bool (the tools run on an unrelated pair of systems in between), 'repeat': bool (the judged
+          function calls are repeated at the end and must return the same), 'forms': int (bit field: numpy-scalar
+          cutoff, list/tuple vectors, list / Fortran-ordered / read-only p vectors, integer theta_max),
+          'intpos': bool (crystal with whole-number coordinates handed over as integers)}
+shist    None | {'mode': inplace|pvec|theta, 'F0': gradient, 'move0': move, 'reads0': [property names read before the
+          change], 'resolve': solve|solve_theta|clear|setter, 'pset': int, 'order': int}: one Strain object is solved in an
+          earlier state (other deformation of the same System object / other reference vectors / other theta_max),
+          read, changed through its public methods and solved again; the second state is the judged one
 """
 import functools
 
@@ -118,7 +131,7 @@ _refmode = st.sampled_from(['base', 'base', 'base', 'peratom', 'single', 'axes',
 _nbrmode = st.sampled_from(['cutoff', 'cutoff', 'neighbors'])
 _ref01 = st.sampled_from([0, 1])
 _quarter = st.integers(0, 3)
-_lazy = st.sampled_from([0, 0, 0, 1, 2])
+_lazy = st.sampled_from([0, 0, 1, 2, 3, 4, 5])
 _third = st.integers(0, 2)
 _cfg = st.sampled_from(['F', 'slip'])
 _cut = st.integers(0, 2)
@@ -127,11 +140,86 @@ _t2 = st.lists(gens.nice(-40.0, 40.0, 2), min_size=3, max_size=3)
 _w2 = st.lists(gens.nice(-0.95, 0.95, 3), min_size=3, max_size=3)
 
 
+# ----------------------------------------------------------------------------- object / process histories
+
+QUERY_OPS = ('nlist', 'r0', 'dvect', 'scaled', 'attr', 'wrap', 'derived')
+_qop = st.sampled_from(['nlist', 'nlist', 'nlist', 'r0', 'dvect', 'scaled', 'attr', 'attr', 'wrap', 'derived'])
+_qint = st.integers(0, 10 ** 6)
+_nq = st.sampled_from([0, 1, 1, 2, 2, 3])
+_small = st.integers(0, 11)
+_state = st.sampled_from(['ref', 'other'])
+_forms = st.one_of(st.just(0), st.integers(0, 15))
+_intpos = st.sampled_from([False] * 9 + [True])
+_whole_origin = st.lists(st.integers(-20, 20).map(float), min_size=3, max_size=3)
+
+
+@st.composite
+def queries(draw):
+    return [{'op': draw(_qop), 'k': draw(_qint), 'x': draw(_unit)} for _ in range(draw(_nq))]
+
+
+QUERIES = queries()
+
+
+@st.composite
+def inplace_builds(draw):
+    return {'state': draw(_state), 'pos': draw(_small), 'box': draw(_small), 'pbcflip': draw(_bool), 'form': draw(_small)}
+
+
+_build1 = st.one_of(st.none(), inplace_builds())
+
+
+@st.composite
+def histories(draw, build=True):
+    return {'ops0': draw(QUERIES), 'ops1': draw(QUERIES), 'build1': draw(_build1) if build else None,
+            'decoy': draw(_bool), 'repeat': draw(_bool), 'forms': draw(_forms), 'intpos': draw(_intpos)}
+
+
+HISTORIES = histories()
+HISTORIES_NOBUILD = histories(build=False)
+
+READS = ('G', 'strain', 'rotation', 'invariant1', 'invariant2', 'invariant3', 'angularvelocity', 'nye', 'asdict', 'save')
+_read = st.sampled_from(['strain', 'strain', 'rotation', 'invariant1', 'invariant2', 'invariant3', 'angularvelocity',
+                         'angularvelocity', 'G', 'nye', 'asdict', 'save'])
+_reads = st.lists(_read, min_size=1, max_size=4)
+_smode = st.sampled_from(['inplace', 'inplace', 'inplace', 'pvec', 'pvec', 'theta'])
+_resolve = st.sampled_from(['solve', 'solve', 'solve', 'solve_theta', 'clear', 'setter'])
+_e0 = st.one_of(gens.nice(0.001, 0.01, 5), st.just(0.01))
+
+
+@st.composite
+def strain_histories(draw):
+    """an earlier life of the Strain object"""
+    return {'mode': draw(_smode), 'F0': draw(GRADIENTS), 'move0': draw(MOVES), 'e0': draw(_e0),
+            'reads0': draw(_reads), 'resolve': draw(_resolve), 'build': draw(inplace_builds()), 'pset': draw(_small)}
+
+
+_shist = st.one_of(st.none(), strain_histories())
+
+
+def whole_number_crystal(xt, origin):
+    """the same case on a cubic crystal whose coordinates are whole numbers (handed over as integers)"""
+    return dict(xt, kind='fcc' if xt['kind'] == 'hcp' else xt['kind'], a=4.0, ca=0.0, orient=0, rot=None, origin=origin)
+
+
+def _with_history(draw, c, hist):
+    h = draw(hist)
+    if h['intpos']:
+        c['xtal'] = whole_number_crystal(c['xtal'], draw(_whole_origin))
+    c['hist'] = h
+    return c
+
+
+_nbrmode3 = st.sampled_from(['cutoff', 'cutoff', 'neighbors', 'attr'])
+
+
 @st.composite
 def strain_cases(draw):
-    return {'xtal': draw(CRYSTALS), 'shells': draw(SHELLS), 'pbc': draw(_pbc_strain), 'F': draw(GRADIENTS),
-            'move': draw(MOVES), 'theta': draw(_theta), 'refmode': draw(_refmode), 'nbrmode': draw(_nbrmode),
-            'wrapper': draw(_quarter) == 0, 'ddref': draw(_ref01), 'ddlazy': draw(_lazy)}
+    c = {'xtal': draw(CRYSTALS), 'shells': draw(SHELLS), 'pbc': draw(_pbc_strain), 'F': draw(GRADIENTS),
+         'move': draw(MOVES), 'theta': draw(_theta), 'refmode': draw(_refmode), 'nbrmode': draw(_nbrmode3),
+         'wrapper': draw(_quarter) == 0, 'ddref': draw(_ref01), 'ddlazy': draw(_lazy), 'order': draw(_qint),
+         'shist': draw(_shist)}
+    return _with_history(draw, c, HISTORIES_NOBUILD)
 
 
 # ----------------------------------------------------------------------------- slip
@@ -159,10 +247,11 @@ SLIPS = slips()
 
 @st.composite
 def slip_cases(draw):
-    return {'xtal': draw(CRYSTALS), 'shells': draw(SHELLS), 'slip': draw(SLIPS),
-            'm_angle': draw(_angle), 'n_flip': draw(_bool), 'plane_ofs': [draw(_ofs), draw(_ofs)],
-            'ddref': draw(_ref01), 'ddnbr': draw(_nbrmode), 'svnbr': draw(_nbrmode),
-            'nye': draw(_third) == 0, 'theta': draw(_theta), 'ddlazy': draw(_lazy)}
+    c = {'xtal': draw(CRYSTALS), 'shells': draw(SHELLS), 'slip': draw(SLIPS),
+         'm_angle': draw(_angle), 'n_flip': draw(_bool), 'plane_ofs': [draw(_ofs), draw(_ofs)],
+         'ddref': draw(_ref01), 'ddnbr': draw(_nbrmode), 'svnbr': draw(_nbrmode3),
+         'nye': draw(_third) == 0, 'theta': draw(_theta), 'ddlazy': draw(_lazy)}
+    return _with_history(draw, c, HISTORIES)
 
 
 # ----------------------------------------------------------------------------- displacement
@@ -192,7 +281,7 @@ def displacement_cases(draw):
         c['bigt'] = draw(_bigt)          # rigid translation in units of the cell vectors, atoms re-wrapped
         c['amp'] = draw(_amp)
         c['useed'] = draw(_seed)
-    return c
+    return _with_history(draw, c, HISTORIES)
 
 
 # ----------------------------------------------------------------------------- invariance
@@ -218,4 +307,4 @@ def invariance_cases(draw):
         c['m_angle'] = draw(_angle)
         c['n_flip'] = draw(_bool)
         c['plane_ofs'] = [draw(_ofs), draw(_ofs)]
-    return c
+    return _with_history(draw, c, HISTORIES_NOBUILD)
